@@ -209,6 +209,43 @@ def gen_relist_cases(ctx):
     return out
 
 
+def gen_sum_cases(ctx):
+    """THE ITERATOR FORM of addition (`impl Sum for Dual / Dual2`, `rlharness dual` op 6): two terms on every pair of layouts,
+    and 3-5 terms on random layouts - same set in another order, subsets, disjoint lists"""
+    rng = random.Random(ctx.seed * 104729 + 11)
+    th = ctx.tier == "thorough"
+    L = layouts(["x", "y", "z", "w"] if th else ["x", "y", "z"])
+    out = []
+
+    def add(kind, terms):
+        e = [6, kind, len(terms)]
+        for t in terms:
+            e += dg.enc_number(t)[1:]
+        out.append(("sum", e, "[%s].into_iter().sum::<%s>()" % ("; ".join("(" + ",".join(t[1]) + ")" for t in terms), "Dual" if kind == 1 else "Dual2"),
+                    ["dual" if kind == 1 else "dual2"],
+                    "terms: %d, layouts %s" % (len(terms), "all equal" if all(t[1] == terms[0][1] for t in terms) else
+                                               "same set, other order" if all(set(t[1]) == set(terms[0][1]) for t in terms) else "different sets")))
+    for kind in (1, 2):
+        for la in L:
+            for lb in L:
+                if not th and kind == 2 and rng.random() < 0.5:
+                    continue
+                add(kind, [mk(rng, kind, la), mk(rng, kind, lb)])
+        for _ in range(200 if th else 60):
+            base = rng.choice(L)
+            ts = []
+            for _ in range(rng.randint(3, 5)):
+                l = list(base)
+                r = rng.random()
+                if r < 0.5:
+                    rng.shuffle(l)
+                elif r < 0.7:
+                    l = rng.choice(L)
+                ts.append(mk(rng, kind, l))
+            add(kind, ts)
+    return out
+
+
 def schema_for(kind, oc):
     if oc >= 5:
         return ["int"]
@@ -260,8 +297,22 @@ def run(ctx):
                 {"case": e, "kind": kind, "operator": OPN[oc], "shared": p, "lhs": list(x), "rhs": list(y),
                  "implementation": dg.plain(da), "model": dg.plain(db),
                  "harness_cmd": "echo 'c %s' | harness/target/release/rlharness dual" % " ".join(str(t) for t in e)})
+    # ---- the same cells with both operands built through the SIBLING constructor (T::try_new_from on a rotated copy of the
+    #      names, the function behind the Python `vars_from`; harness RL_PRESENT=1): by name they are the same numbers
+    impl2 = run_harness("dual", ["c " + " ".join(str(x) for x in c) for c in encd], present=1)
+    for c, e, a, b in zip(cases, encd, impl2, model):
+        kind, oc, p, x, y = c
+        ctx.evaluations += 1
+        ctx.count("operands built through try_new_from")
+        ok, da, db = dg.agree(a, b, schema_for(kind, oc), rtol=1e-9)
+        if not ok:
+            ctx.violation("with both operands built through try_new_from (names rotated) the implementation disagrees with the "
+                          "proved model on %s: implementation %s, model %s" % (describe(*c), str(dg.plain(da))[:300], str(dg.plain(db))[:300]),
+                          {"case": e, "kind": kind, "operator": OPN[oc], "shared": p, "lhs": list(x), "rhs": list(y), "present": 1,
+                           "implementation": dg.plain(da), "model": dg.plain(db),
+                           "harness_cmd": "echo 'c %s' | RL_PRESENT=1 harness/target/release/rlharness dual" % " ".join(str(t) for t in e)})
     # ---- the re-listing entry points called directly
-    extra = gen_relist_cases(ctx)
+    extra = gen_relist_cases(ctx) + gen_sum_cases(ctx)
     xenc = [c[1] for c in extra]
     ximpl = run_harness("dual", ["c " + " ".join(str(x) for x in c) for c in xenc])
     xmodel = coq_eval("Run.RunDual", "runDual", xenc, ctx.work, shard=max(50, len(xenc) // (NCPU * 3) + 1), tag="c03x")
@@ -292,7 +343,7 @@ def replay(ctx, rp):
     build_harness()
     build_coq(["theories/Run/RunDual.vo"])
     c = rp["case"]
-    a = run_harness("dual", ["c " + " ".join(str(x) for x in c)])[0]
+    a = run_harness("dual", ["c " + " ".join(str(x) for x in c)], present=rp.get("present", 0))[0]
     b = coq_eval("Run.RunDual", "runDual", [c], ctx.work)[0]
     print("implementation", a, "\nmodel", b)
     ctx.cleanup()
